@@ -38,7 +38,8 @@ META = {
                      'CPython ast'],
     'assumptions': ['signatures handed to the splitter are valid (balanced)'],
     'decided': ['D1 wrapper table', 'D2 inferred signature is one complete '
-                'type', 'D3 one splitter', 'D4 no dead decision',
+                'type; homogeneity flags are only ever lowered inside the '
+                'element loop', 'D3 one splitter', 'D4 no dead decision',
                 'D5 splitter tiling and bracket matching',
                 'D6 variant encoder/decoder agreement (shared with C01/C02)'],
     'undecided': ['exactness of the splitter on every valid signature',
@@ -104,6 +105,46 @@ def run(ctx):
                'sigFromPy can return %s, which is not evidently a single '
                'complete type' % term_str(v)[:80])
     ctx.extra['inferred_constants'] = sorted(codes_seen)
+    # "all elements have one type" flags: start True before the loop over
+    # the elements and may only ever be LOWERED inside it (a flag that is
+    # recomputed per element reflects the last element only)
+    n_flags = 0
+    seen_flags = set()
+    for p in paths:
+        for ev in p.trace:
+            if ev[0] != 'loop':
+                continue
+            lid, pre = ev[1], ev[5]
+            for slot, pv in pre.items():
+                if pv != C(True) or (lid, slot) in seen_flags:
+                    continue
+                seen_flags.add((lid, slot))
+                n_flags += 1
+                lv = ('loopvar', lid, slot)
+                bad = None
+                for bp in ev[4]:
+                    val = bp.state.store.get(slot, lv)
+                    mono = val in (lv, C(False)) or (
+                        kind(val) == 'boolop' and val[1] == 'and' and
+                        lv in val[2])
+                    if not mono:
+                        bad = val
+                ctx.ob('C19.D2', fi0.qualname, 'homogeneity-flag:%s@%s'
+                       % (slot, lid[1] if isinstance(lid, tuple) else lid),
+                       bad is None,
+                       'the flag %r says "every element has the type of the '
+                       'first"; inside the loop it may only be set to False '
+                       '(or and-ed), but a path assigns %s: the flag then '
+                       'reflects only the LAST element, and a mixed '
+                       'container is inferred as homogeneous (it cannot be '
+                       'encoded under that signature)'
+                       % (slot, term_str(bad)[:60] if bad else ''))
+    n_all = sum(1 for n in ast.walk(fi0.node) if isinstance(n, ast.Call) and
+                isinstance(n.func, ast.Name) and n.func.id == 'all')
+    if n_flags + n_all < 2:
+        raise AnalysisError('sigFromPy: the homogeneity flags of the list '
+                            'and dict branches were not recognised (%d)'
+                            % n_flags)
     if n_ret < 8:
         raise AnalysisError('sigFromPy: only %d return paths' % n_ret)
     # wide integers must not be inferred as INT32
